@@ -230,6 +230,11 @@ def run(ctx):
                 continue
             srcs, unknown = PN.sources_of(api, b)
             for (ub, ubi, path) in unknown:
+                # a call written by a dependency macro inside a user-written function (py_fn!(..) as an argument) is the
+                # same dependency glue as the bodies skipped above
+                if ub.blocks[ubi]["tspan"].get("exp") and any(m.startswith("py_") or m == "wasm_bindgen" for m in ub.blocks[ubi]["tspan"].get("macros", [])):
+                    by_kind["(dependency macro glue, listed not judged)"] += 1
+                    continue
                 unknown_all.setdefault(path, ub.where(ubi))
             for s in srcs:
                 t = b.blocks[s.bi]["term"]
@@ -790,20 +795,33 @@ def boundary_cli(ctx, facts, tag):
             if recv[0] == "call" and recv[1] and recv[1]["path"].endswith("::value_of"):
                 n = strip_refs(recv[2][1])
                 name = const_value(n[1]) if n[0] == "const" else None
-            req = False
+            # The declarations are read as the set of (argument name, required flag) combinations that reach
+            # `Arg::required` on an `Arg::with_name(name)` — written in place, handed to a helper as parameters, or taken
+            # from the rows of a constant table (x_joint.joint_values): satisfied when the name is declared with `true`
+            # and never with `false`; violated when the declarations were all read and say otherwise; not read else.
+            from .x_joint import joint_values
+            decls, unreadable = set(), []
             if name is not None:
                 for b in facts.fns():
                     for bj, tt in b.calls():
                         if (callee_path(tt) or "").endswith("Arg::<'a, 'b>::required"):
-                            chain = m.trace if False else b.trace
                             e = strip_refs(b.trace(tt["args"][0]))
                             flag = strip_refs(b.trace(tt["args"][1]))
-                            names = []
-                            expr_mentions(e, lambda x: names.append(const_value(x[1])) if x[0] == "const" and isinstance(const_value(x[1]), str) else False)
-                            if name in names and flag[0] == "const" and const_value(flag[1]) is True:
-                                req = True
-            ctx.check(req, "K3.cli-required", "expect on clap argument %r is backed by required(true) (%s)" % (name, tag),
-                      "main unwraps the value of argument %r but the argument is not declared required(true): a missing argument would panic" % name, where=m.where(bi), fn=m.key, nontrivial=True)
+                            ctor = []
+                            expr_mentions(e, lambda x: ctor.append(x) if x[0] == "call" and x[1] and x[1]["path"].endswith("::with_name") and x[2] else False)
+                            vals = joint_values(facts, b, [ctor[0][2][0], flag]) if len(ctor) == 1 else None
+                            if vals is None or any(not isinstance(n_, str) or not isinstance(f_, bool) for n_, f_ in vals):
+                                unreadable.append((b, bj))
+                            else:
+                                decls |= vals
+            key = "expect on clap argument %r is backed by required(true) (%s)" % (name, tag)
+            if (name, True) in decls and (name, False) not in decls:
+                ctx.ok("K3.cli-required", key, nontrivial=True, sample={"argument": name, "declarations read (name, required)": sorted(decls)})
+            elif unreadable and (name, False) not in decls:
+                ub, ubj = unreadable[0]
+                ctx.unread("K3.cli-required", key, "a declaration Arg::required(..) whose argument name / flag is not read as constants (in place, parameters over all call sites, rows of a constant table)", where=ub.where(ubj), fn=ub.key)
+            else:
+                ctx.fail("K3.cli-required", key, "main unwraps the value of argument %r but the argument is not declared required(true) (declarations read: %s): a missing argument would panic" % (name, sorted(decls)), where=m.where(bi), fn=m.key)
     exits = [callee_path(t) for b in facts.fns() for _, t in b.calls() if callee_path(t) in ("std::process::abort", "std::intrinsics::abort")]
     ctx.check(not exits, "K3.cli-no-abort", "no process::abort in the binary — process::exit(status) is an ordinary end with an exit status (%s)" % tag, "the binary calls %s" % exits, where=m.where(), fn=m.key)
 
@@ -828,13 +846,54 @@ def boundary_python(ctx, facts, roles, tag):
     # the function registered with py_fn! returns PyResult<String> whose Err is built only there
     wrappers = [b for b in py if b.kind == "fn" and not b.span.get("exp") and "PyResult" in facts.items[b.key]["output"] or (b.kind == "fn" and not b.span.get("exp") and "cpython::PyErr" in facts.items.get(b.key, {}).get("output", ""))]
     ctx.check(len(wrappers) >= 1, "K3.py-wrapper", "binding function returns PyResult (%s)" % tag, "no user-written function returning PyResult found", where=py[0].where(), fn=py[0].key)
+    # "an Err becomes the exception" is stated on where exception values come from and on what consumes a Result, not on
+    # how the conversion is spelled (map_err at the end, a combinator pipeline, a method of an error enum, `?`):
+    #   * the type system already says that the Err a binding function returns is a PyErr; a PyErr value *originates* in a
+    #     call into the cpython crate (std combinators and `?` only pass it on, local functions of the interface are
+    #     judged themselves): a constructor — ValueError only, K3.py-valueerror above — or the Python runtime's own error
+    #     handed on (PyModule::add …).  An origin anywhere else (another crate, a function outside the interface) is
+    #     not read.
+    #   * no Result in the user-written interface code is consumed by an API that panics on Err or drops it
+    #     (unwrap/expect are K1 sources as well; ok/unwrap_or*/is_ok/is_err/err lose the error: a failed call would end
+    #     as a value instead of the exception).
+    DROPS_ERR = re.compile(r"^std::result::Result::<T, E>::(unwrap|expect|unwrap_unchecked|ok|err|unwrap_or|unwrap_or_else|unwrap_or_default|is_ok|is_err|is_ok_and|is_err_and|unwrap_err|expect_err|into_ok)$")
+    NOT_READ = re.compile(r"^std::result::Result::<T, E>::(iter|iter_mut|into_iter|map_or|map_or_else|as_ref|as_mut|as_deref|transpose|flatten|copied|cloned)$|IntoIterator>::into_iter$")
+    user = [b for b in py if not b.span.get("exp")]
+
+    def op_local(o):
+        return o["place"]["local"] if o.get("k") in ("Copy", "Move") else None
     for w in wrappers:
-        r = strip_refs(w.trace(0))
-        good = r[0] == "call" and r[1] and r[1]["path"] == "std::result::Result::<T, E>::map_err"
-        inner = strip_refs(r[2][0]) if good else None
-        good = good and inner[0] == "call" and inner[1]["local"]
-        ctx.check(bool(good), "K3.py-maps-err", "%s maps every Err to the exception (%s)" % (w.key.split("::", 1)[1], tag),
-                  "the binding function's result is %s (expected inner(..).map_err(|e| PyErr::new::<ValueError,_>))" % show_expr(r), where=w.where(), fn=w.key, nontrivial=True)
+        unit = [b for b in user if b.key == w.key or b.key.startswith(w.key + "::{closure#")]
+        origins, foreign, dropped = [], [], []
+        for b in unit:
+            for bi, t in b.calls():
+                c = callee_of(t)
+                p = (c or {}).get("path") or ""
+                if c is not None and DROPS_ERR.match(p) and not (b.blocks[bi]["tspan"].get("exp") and any(m.startswith("py_") for m in b.blocks[bi]["tspan"].get("macros", []))):
+                    dropped.append((b, bi, p))
+                if c is not None and NOT_READ.search(p) and t["args"] and op_local(t["args"][0]) is not None and "std::result::Result<" in b.local_ty(op_local(t["args"][0])):
+                    foreign.append((b, bi, "a Result handed to %s" % p))
+                dty = b.local_ty(t["dest"]["local"]) if t.get("dest") and not t["dest"]["proj"] else ""
+                if "cpython::PyErr" not in dty:
+                    continue
+                if c is None:
+                    foreign.append((b, bi, "an indirect call"))
+                elif c["local"]:
+                    if not any(c["key"] == x.key for x in py):
+                        foreign.append((b, bi, c["path"]))
+                elif c["crate"] == "cpython":
+                    origins.append((b, bi, c))
+                elif c["crate"] not in ("core", "std", "alloc"):
+                    foreign.append((b, bi, c["path"]))
+        key = "%s maps every Err to the exception (%s)" % (w.key.split("::", 1)[1], tag)
+        if dropped:
+            b, bi, p = dropped[0]
+            ctx.fail("K3.py-maps-err", key, "the binding consumes a Result with %s: an Err does not become the Python exception (it panics or is dropped)" % p, where=b.where(bi), fn=b.key)
+        elif foreign:
+            b, bi, p = foreign[0]
+            ctx.unread("K3.py-maps-err", key, "not read: %s (an exception value that comes neither from the cpython crate nor from the interface itself, or a Result consumed in a way the rule does not follow)" % p, where=b.where(bi), fn=b.key)
+        else:
+            ctx.ok("K3.py-maps-err", key, nontrivial=True, sample={"binding": w.key, "exception values originate in": sorted({c["path"] for _, _, c in origins})})
 
 
 def depth_limit(ctx, facts, tag):
